@@ -101,16 +101,28 @@ def gen_tu(tu, tu_defs):
     rc, out, _, _ = sh([ensure_tool(), ll, c, os.path.join(d, 'externs.txt'), os.path.join(d, 'api.h')], timeout=600)
     if rc != 0:
         raise Inconclusive(f'll2c failed on {tu}:\n' + out[-4000:])
-    # goto binary of the translated TU + runtime (parsed once, linked into every query)
-    gb = os.path.join(d, 'tu.gb')
-    rc, out, _, _ = sh(['goto-cc', '-DVERIF_CBMC', '-c', f'-I{TOOL}', c, '-o', gb], timeout=900)
-    if rc != 0:
-        raise Inconclusive(f'goto-cc failed on translated {tu}:\n' + out[-4000:])
-    info = {'dir': d, 'll': ll, 'c': c, 'gb': gb, 'api': os.path.join(d, 'api.h'), 'gen_s': round(time.time() - t0, 2),
+    info = {'dir': d, 'll': ll, 'c': c, 'api': os.path.join(d, 'api.h'), 'gen_s': round(time.time() - t0, 2),
             'ir_lines': sum(1 for _ in open(ll)), 'c_lines': sum(1 for _ in open(c)),
             'functions': sorted(set(re.findall(r'^define [^@]*@([^\s(]+)\(', open(ll).read(), re.M)))}
     _tu_cache[key] = info
     return info
+
+
+_gb_lock = __import__('threading').Lock()
+
+
+def tu_gb(tui, c_defs):
+    """goto binary of the translated TU for one set of C-level defines (e.g. VERIF_NEW_CAPN); parsed once, linked into every query"""
+    with _gb_lock:
+        key = ('gb', tui['dir'], tuple(sorted(c_defs.items())))
+        if key in _tu_cache:
+            return _tu_cache[key]
+        gb = os.path.join(tui['dir'], 'tu' + ('-' + tag_of(*key[2]) if c_defs else '') + '.gb')
+        rc, out, _, _ = sh(['goto-cc', '-DVERIF_CBMC', '-c', f'-I{TOOL}'] + defs_args(c_defs) + [tui['c'], '-o', gb], timeout=900)
+        if rc != 0:
+            raise Inconclusive(f'goto-cc failed on translated C in {tui["dir"]}:\n' + out[-4000:])
+        _tu_cache[key] = gb
+        return gb
 
 
 def rt_gb():
@@ -131,7 +143,8 @@ class Q:
     """one solver query = one harness instance"""
     def __init__(self, name, tu, harness, defs=None, tu_defs=None, unwind=8, unwindset=None, timeout=None,
                  tiers=('quick', 'thorough'), solver=None, mem_gb=None, allow_nobody=(), known=None, note='',
-                 native_vectors=300, object_bits=None, slice_formula=False, extra_flags=()):
+                 native_vectors=300, object_bits=None, slice_formula=False, extra_flags=(), c_defs=None):
+        self.c_defs = dict(c_defs or {})
         self.name, self.tu, self.harness = name, tu, harness
         self.defs = dict(defs or {}); self.tu_defs = dict(tu_defs or {})
         self.unwind, self.unwindset = unwind, dict(unwindset or {})
@@ -181,7 +194,7 @@ def cbmc_cmd(q, gb, tier, trace=False, scale=1):
         cmd += ['--object-bits', str(q.object_bits)]
     if q.slice_formula:
         cmd += ['--slice-formula']
-    if q.solver == 'cadical':
+    if (q.solver or 'cadical') == 'cadical':   # default: minisat showed heavy-tailed run times on these instances (8 s vs > 240 s for the same query)
         cmd += ['--sat-solver', 'cadical']
     elif q.solver == 'kissat':
         cmd += ['--external-sat-solver', 'kissat']
@@ -197,7 +210,7 @@ def build_query_gb(q, tui, qd, witness=True):
     defs = dict(q.defs)
     if not witness:
         defs['VERIF_NO_WITNESS'] = None
-    rc, out, _, _ = sh(['goto-cc', '-DVERIF_CBMC', f'-I{TOOL}', f'-I{tui["dir"]}'] + defs_args(defs) + [h, tui['gb']] + rt_gb() + ['-o', gb], timeout=600)
+    rc, out, _, _ = sh(['goto-cc', '-DVERIF_CBMC', f'-I{TOOL}', f'-I{tui["dir"]}'] + defs_args(defs) + [h, tu_gb(tui, q.c_defs)] + rt_gb() + ['-o', gb], timeout=600)
     if rc != 0:
         raise Inconclusive(f'goto-cc failed on harness {q.harness}:\n' + out[-4000:])
     return gb
@@ -237,8 +250,22 @@ def native_build(q, tui, qd, real, sanitize=False):
             rc2, out2, _, _ = sh(['gcc', '-std=gnu11', '-c', '-O1', '-w', f'-I{TOOL}', os.path.join(TOOL, 'verif_stubs.c'), '-o', os.path.join(tui['dir'], 'stubs.o')], timeout=300)
             if rc or rc2:
                 raise Inconclusive('gcc failed on runtime:\n' + out + out2)
+            # out-of-line C++ library symbols the IR merely references (vtables of print functions etc.): weak aborting stubs
+            es = os.path.join(tui['dir'], 'extstub.c')
+            with open(es, 'w') as f:
+                f.write('#include <stdio.h>\n#include <stdlib.h>\n')
+                for ln in open(os.path.join(tui['dir'], 'externs.txt')):
+                    n = ln.strip()
+                    if n.startswith('@'):
+                        if n[1:].startswith('_Z'):
+                            f.write(f'__attribute__((weak)) char {n[1:]}[4096];\n')
+                    elif n.startswith('_Z'):
+                        f.write(f'__attribute__((weak)) void {n}(void) {{ fprintf(stderr, "unencoded external function reached: {n}\\n"); abort(); }}\n')
+            rc, out, _, _ = sh(['gcc', '-std=gnu11', '-c', '-w', es, '-o', os.path.join(tui['dir'], 'extstub.o')], timeout=300)
+            if rc:
+                raise Inconclusive('gcc failed on extern stubs:\n' + out)
             _tu_cache[key] = o
-        rc, out, _, _ = sh(['gcc'] + objs + [o, os.path.join(tui['dir'], 'rt.o'), os.path.join(tui['dir'], 'stubs.o'), '-o', exe, '-lm'], timeout=300)
+        rc, out, _, _ = sh(['gcc'] + objs + [o, os.path.join(tui['dir'], 'rt.o'), os.path.join(tui['dir'], 'stubs.o'), os.path.join(tui['dir'], 'extstub.o'), '-o', exe, '-lm'], timeout=300)
     if rc != 0:
         raise Inconclusive(f'link failed ({"real" if real else "xlat"}) for {q.name}:\n' + out[-3000:])
     return exe
@@ -277,7 +304,7 @@ def extract_nd(trace):
 
 def run_query(q, tier, seed, prop_id):
     r = {'query': q.name, 'harness': q.harness, 'tu': q.tu, 'params': q.defs, 'unwind': q.unwind, 'unwindset': q.unwindset,
-         'backend': q.solver or 'minisat(default)', 'verdict': 'inconclusive', 'note': q.note}
+         'backend': q.solver or 'cadical', 'verdict': 'inconclusive', 'note': q.note}
     t0 = time.time()
     try:
         tui = gen_tu(q.tu, q.tu_defs)
@@ -305,13 +332,17 @@ def run_query(q, tier, seed, prop_id):
             if p['verdict_line'] == 'NONE':
                 r['detail'] = 'cbmc produced no verdict (rc=%d): %s' % (rc, out[-600:])
                 return r
-            unk = [f for f in p['nobody'] if f not in NOBODY_OK and f not in q.allow_nobody]
-            if unk:
-                r['detail'] = 'functions without body reached (would be havoc): ' + ','.join(unk)
-                return r
             wit = [k for k, v in p['props'].items() if ('WITNESS:' in v[0])]
             fails = {k: v for k, v in p['props'].items() if v[1] == 'FAILURE' and not ('WITNESS:' in v[0])}
             unwind_fails = {k: v for k, v in fails.items() if 'unwinding assertion' in v[0] or 'recursion unwinding' in v[0]}
+            nobody_fails = {k: v for k, v in fails.items() if '.no-body.' in k}
+            if nobody_fails:
+                r['detail'] = 'a function without body is reachable (its effect is not encoded): ' + ', '.join(sorted({k.split('.no-body.')[1] for k in nobody_fails}))
+                return r
+            bound_fails = {k: v for k, v in fails.items() if 'ENCODING-BOUND' in v[0]}
+            if bound_fails:
+                r['detail'] = 'encoding bound exceeded (not a property violation): ' + '; '.join(sorted({v[0] for v in bound_fails.values()}))
+                return r
             real_fails = {k: v for k, v in fails.items() if k not in unwind_fails}
             r['properties_checked'] = len(p['props'])
             r['witness_reached'] = bool(wit) and all(p['props'][k][1] == 'FAILURE' for k in wit)
